@@ -54,26 +54,29 @@ def report_violation(module, prop, res, cfg, shrink=True, log=print):
                     log(f"[{prop}] shrink failed ({o['harness_error']}); reporting the unshrunk case")
         except driver.HarnessError as e:
             log(f"[{prop}] shrink failed ({e}); reporting the unshrunk case")
-    try:
-        out = driver.one_shot(module, spec, cfg, {"cmd": "exec", "case": case}, timeout=cfg.get("replay_wall", 300))
-    except driver.HarnessError as e:
-        out = [{"harness_error": str(e)}]
-    final = out[0] if out else {}
     want = res.get("verdict", "violation")
-    if final.get("verdict") != want or final.get("klass") != klass:
-        # fall back to the unshrunk case before calling the harness flaky
+
+    def replay_once(c):
         try:
-            out2 = driver.one_shot(module, spec, cfg, {"cmd": "exec", "case": res["case"]}, timeout=cfg.get("replay_wall", 300))
+            out = driver.one_shot(module, spec, cfg, {"cmd": "exec", "case": c}, timeout=cfg.get("replay_wall", 300))
         except driver.HarnessError as e:
-            out2 = [{"harness_error": str(e)}]
-        f2 = out2[0] if out2 else {}
-        if f2.get("verdict") == want and f2.get("klass") == klass:
-            case, final = res["case"], f2
-        else:
-            path = write_replay(prop, res["case"], res)
-            return path, False, f2
-    path = write_replay(prop, case, final)
-    return path, True, final
+            out = [{"harness_error": str(e)}]
+        f = out[0] if out else {}
+        return f, (f.get("verdict") == want and f.get("klass") == klass)
+
+    # the (shrunk) case must reproduce in a fresh worker; a change under test whose behaviour depends on something the simulator
+    # cannot own (object addresses, e.g. a memo keyed by id()) may need more than one attempt - that is reported, never hidden
+    final = {}
+    for cand in ([case, res["case"]] if case is not res["case"] else [case]):
+        for attempt in range(1, 4):
+            final, ok = replay_once(cand)
+            if ok:
+                if attempt > 1:
+                    final["detail"] = f"{final.get('detail')} [reproduced on replay attempt {attempt} of 3: the failure depends on a source of nondeterminism outside the simulator, e.g. object addresses]"
+                path = write_replay(prop, cand, final)
+                return path, True, final
+    path = write_replay(prop, res["case"], res)
+    return path, False, final
 
 
 def run(module, prop, tier, plan, describe, assumptions=()):
@@ -140,19 +143,25 @@ def run(module, prop, tier, plan, describe, assumptions=()):
         print(f"KNOWN-FINDING: property={prop} {known_db[sig]['what']} (signature={sig}; {len(rs)} runs, first at run {rs[0]['i']})")
     viols.sort(key=lambda r: r["i"])
     reported = {}
+    tried = {}
+    flaky = {}
     for r in viols:
         k = r.get("klass")
-        if k in reported or len(reported) >= 3:
+        if k in reported or len(reported) >= 3 or tried.get(k, 0) >= 3:
             continue
+        tried[k] = tried.get(k, 0) + 1
         path, ok, final = report_violation(module, prop, r, cfg)
-        reported[k] = path
         if ok:
+            reported[k] = path
+            flaky.pop(k, None)
             print(f"[{prop}] run {r['i']} (seed {r['case'].get('seed')}): {final.get('klass')}: {final.get('detail')}")
             print(f"VIOLATION property={prop} replay={path}", flush=True)
-            exit_code = 1
+            exit_code = 1 if exit_code in (0, 1) else exit_code
         else:
-            print(f"HARNESS-FLAKY property={prop} run={r['i']} klass={k} replay={path} (did not reproduce in a fresh worker: {final})", flush=True)
-            exit_code = max(exit_code, 2)
+            flaky[k] = (r["i"], path, final)
+    for k, (i, path, final) in flaky.items():  # no run of this class reproduced in fresh workers: a broken check, never a silent pass
+        print(f"HARNESS-FLAKY property={prop} run={i} klass={k} replay={path} (did not reproduce in a fresh worker: {str(final)[:300]})", flush=True)
+        exit_code = 2 if exit_code == 0 else exit_code
     if errors:
         shown = set()
         for e in errors:
